@@ -66,9 +66,9 @@ def do_no_mix(multiple, depth, order):
     sim.RANDOM.n = 1000
     rp1, rp2 = [{'port': 1, 'link': 0}], [{'port': 2, 'link': 5}]
     sp2 = [{'class': 6}, {'instance': 1}]
-    specs = [("A[0-1]", rp1), ("A[2]", rp1), ("B[0]", rp2), ("B[1-2]", rp2), ("A[3]", rp1), ("B[3]", rp2)]
+    specs = [("A[0-1]", rp1), ("A[2]", rp1), ("B[0]", rp2), ("B[1-2]", rp2)]
     if order % 2:
-        specs = [specs[0], specs[2], specs[1], specs[3], specs[5], specs[4]]
+        specs = [specs[0], specs[2], specs[1], specs[3]]
     ops = []
     for text, rp in specs:
         op, = client.parse_operations([text], route_path=rp, send_path=sp2 if rp is rp2 else None)
@@ -83,7 +83,7 @@ def do_no_mix(multiple, depth, order):
     w.feed = spy
     with c:
         res = [(st, v) for i, d, rq, rp, st, v in c.operate(ops, depth=depth, multiple=multiple, timeout=1)]
-    ok = len(res) == 6 and all(st == 0 for st, v in res)
+    ok = len(res) == 4 and all(st == 0 for st, v in res)
     # every frame the peer received: its route path decides which tag its (bundled) members may address
     for fr in seen:
         e = ref.un_encap(fr)
@@ -109,9 +109,10 @@ def do_no_mix(multiple, depth, order):
     return ok
 
 
-define(globals(), 'C12', 'bundles_never_mix_paths', ['multiple', 'depth', 'order'], "return do_no_mix(multiple, depth, order)",
-       ['0 <= multiple and 0 <= depth and 0 <= order <= 1'], timeout=3000, path_timeout=600, drives=CLI_DRIVES, stubs=STUBS,
-       bounds='6 reads alternating between two (route path, send path) pairs, for every bundle size limit and depth: every frame the peer receives '
+for _order in (0, 1):
+  define(globals(), 'C12', 'bundles_never_mix_paths_order%d' % _order, ['multiple', 'depth'], "return do_no_mix(multiple, depth, %d)" % _order,
+       ['0 <= multiple and 0 <= depth <= 2'], tier='quick' if _order else 'thorough', timeout=3000, path_timeout=600, drives=CLI_DRIVES, stubs=STUBS,
+       bounds='4 reads (grouped / alternating) between two (route path, send path) pairs, for every bundle size limit and depth 0..2: every frame the peer receives '
               '(decoded by the reference decoder) carries only members of operations that have that frame\'s route path', outside='')
 
 
